@@ -33,6 +33,7 @@ static void run(Src &s) {
   o.header_trail = false;       // a header's trailing comment is nobody's "comment of its line"
   o.cont_after_quoted = true;   // "quoted" first line followed by continuation lines: the value does not start with a quote
   o.max_lines = 30;
+  o.comment_chars_in_comments = true;
   GFile f = gen_file(s, o);
   size_t how = s.weighted({60, 20, 10, 10});  // absolute, relative, ./relative, sub/../relative
   std::string abs = g_scr.dir + "/f.conf", given = abs;
